@@ -444,7 +444,11 @@ def rule_K3(repo: Repo) -> RuleResult:
             for st, target, value_txt, is_identity in p.state_stores(state_arrays):
                 arr = base_name(target)
                 construct = f"{norm(st)} on path {p.describe()}"
-                key_construct = f"{norm(st)} [{sel}]"
+                # the finding key names the state array and the kind of store, not the spelling of the code variable or of the
+                # scalars on the right-hand side (a rename of those must not turn a known finding into a new one)
+                opname = {"Mult": "*=", "Add": "+=", "Sub": "-=", "Div": "/="}.get(type(st.op).__name__, "op=") \
+                    if isinstance(st, ast.AugAssign) else "="
+                key_construct = f"{arr}[<code>] {opname} ... [{sel}]"
                 if is_identity:
                     res.ok(f, st, key_construct, "store of the cell's own current value (identity)")
                 elif arr in exempt_arrays:
